@@ -16,6 +16,7 @@
 -/
 import SoyVerif.Lemmas.ParserAll
 import SoyVerif.Lemmas.ParserToks
+import SoyVerif.Lemmas.ParserQuote
 
 namespace SoyVerif.Props.C17
 open SoyVerif SoyVerif.Model SoyVerif.Model.Parser SoyVerif.Model.PrintTokens SoyVerif.Model.Printer
@@ -51,6 +52,13 @@ theorem toks_spell_printer (e : Expr) :
 theorem printed_tokens_render (e : Expr) (hC : Canon ff pf e) : Renders pf e (toks ff e) :=
   renders_toks ff pf e hC
 
+/-- the key condition of `Canon` holds for every key of plain ASCII bytes (no byte that
+    `quoteString` escapes); PARTIAL: keys with escapes or multi-byte runes are covered by examples
+    and the correspondence only, keys with invalid UTF-8 violate it (`Inst.C17.invalid_utf8_key_not_requotable`) -/
+theorem key_requotable_plain_partial (k : Bytes) (h : ∀ b ∈ k, SoyVerif.Lemmas.ParserQuote.plainB b = true) :
+    Quote.unquoteString (quoteString k) = some k :=
+  SoyVerif.Lemmas.ParserQuote.requote_plain k h
+
 variable (T : TableOK)
 include T
 
@@ -63,6 +71,13 @@ theorem parse_complete_redundant_parens (e : Expr) (ts : List Tk) (items : List 
     (hR : RendersTop pf e ts) (hit : Carries items (ts ++ [tEOF])) :
     ∃ e', parseExprEntry pf items = .ok e' ∧ erase e' = erase e :=
   parse_slot_entry pf T e ts items hR hit
+
+/-- the same for EVERY fuel of at least 8 per token (+1): the result does not depend on the fuel
+    (this is why no separate fuel-monotonicity lemma is needed), and the parser stops in front of EOF -/
+theorem parse_complete_any_fuel (e : Expr) (ts : List Tk) (items : List Item)
+    (hR : RendersTop pf e ts) (hit : Carries items (ts ++ [tEOF])) (F : Nat) (hF : 8 * ts.length + 1 ≤ F) :
+    ∃ e' st2, parseExpr pf F 0 (initState items) = .ok (e', st2) ∧ erase e' = erase e ∧ At1 st2 [tEOF] :=
+  parse_slot_fuel pf T e ts items hR hit F hF
 
 /-- C17 at the token level (FULL): the tokens of the printed text of a canonical tree, with any
     positions, parse back to the tree modulo positions -/
